@@ -44,7 +44,7 @@ Qed.
 
 Lemma thin_valueD_eq gs : guards_ok gs = true -> forall ndxs v, thin_valueD gs ndxs v = thin_value ndxs v.
 Proof.
-  destruct gs as [|[| |n] r]; try (intro H; discriminate H). simpl. intro H.
+  destruct gs as [|[| |n] [|[| |m] r]]; try (intro H; discriminate H). simpl. intro H.
   apply andb_true_iff in H. destruct H as [H1 H2]. intros ndxs v.
   destruct v as [x| |f xs]; try reflexivity.
   unfold thin_valueD, thin_value. cbn [forallb guard_arr andb]. rewrite (guard_tail_spec xs r H1), H2. reflexivity.
@@ -125,3 +125,20 @@ Proof.
   intros t k ndxs t' n f ia ka fa A ib kb fb B. rewrite thinD_is_thin. apply thin_preserves_samplewise_relation.
 Qed.
 End Generic.
+
+(* ------------------------------------------------------------------ _sort_x_on_y_rank *)
+Theorem rerankD_is_rerank d : rank_spec_ok d = true ->
+  forall px py x y, rerankD d px py x y = rerank py x.
+Proof.
+  unfold rank_spec_ok. intro H.
+  repeat match type of H with (_ && _ = true) => apply andb_true_iff in H; let H' := fresh "E" in destruct H as [H H'] end.
+  intros px py x y. unfold rerankD, rerank. apply Nat.eqb_eq in H. apply Nat.eqb_eq in E1. apply negb_true_iff in E0.
+  rewrite H, E1, E0. reflexivity.
+Qed.
+
+Theorem rerankD_rank_order d : rank_spec_ok d = true -> forall px py x y,
+  valid_perm_b y py = true -> length x = length y ->
+  length (rerankD d px py x y) = length y /\
+  forall p q, p < length y -> q < length y -> (nth p y 0 < nth q y 0)%Z ->
+              (nth p (rerankD d px py x y) 0 <= nth q (rerankD d px py x y) 0)%Z.
+Proof. intros H px py x y. rewrite (rerankD_is_rerank d H). apply rerank_rank_order. Qed.
